@@ -16,7 +16,8 @@ Event tokens (space separated, fields separated by '|'):
  X|rel|g   X|cancel|t
  t|start   t|end|OUT                       OUT ::= ok | Boom | BaseBoom | Cancelled | <other class name>
  t|pre|b|FP   t|post|b|FP                  FP ::= <A>,<B>,<R>/<scope label>/<group block>
- t|enter|b    t|bodyend|b|OUT    t|left|b|OUT|same|alive+alive…   (same: caller's exception is the body's object)
+ t|enter|b    t|bodyend|b|OUT|pending    t|left|b|OUT|same|alive+alive…   (same: caller's exception is the body's
+              object; pending: 1 iff a cancellation request is still undelivered to the task when the body ends)
  t|probe|n|FP   t|await|g   t|resume|g|ok/cancelled   t|raise|kind   t|tryok   t|caught|OUT
  t|spawn|c|how   t|spawnfail|c   t|check|raised(0/1)|asked(0/1)   t|cancelself
  t|den|d   t|dened|d|OUT   t|dex|d|EXCARG   t|dexed|d|OUT
@@ -216,6 +217,13 @@ class Run:
                 grp = "-"
         return f"{','.join(vals)}/{label}/{grp}"
 
+    @staticmethod
+    def pending_cancel() -> int:
+        """1 iff Task.cancel() was called on the current task and the CancelledError has not been thrown into it yet
+        (asyncio's own `_must_cancel` flag: the request landed while the task was runnable, or it cancelled itself)"""
+        task = asyncio.current_task()
+        return 1 if task is not None and getattr(task, "_must_cancel", False) else 0
+
     def note_group(self, b):
         if self._gvar is not None:
             try:
@@ -330,9 +338,9 @@ class Run:
                                 await self.exec(t, body)
                             except BaseException as e:
                                 body_exc = e
-                                self.ev(t, "bodyend", b, out_name(e))
+                                self.ev(t, "bodyend", b, out_name(e), self.pending_cancel())
                                 raise
-                            self.ev(t, "bodyend", b, "ok")
+                            self.ev(t, "bodyend", b, "ok", self.pending_cancel())
                     elif kind == "sync":
                         with ctx.scope(f"b{b}", *insts):
                             self.ev(t, "enter", b)
@@ -340,9 +348,9 @@ class Run:
                                 await self.exec(t, body)
                             except BaseException as e:
                                 body_exc = e
-                                self.ev(t, "bodyend", b, out_name(e))
+                                self.ev(t, "bodyend", b, out_name(e), self.pending_cancel())
                                 raise
-                            self.ev(t, "bodyend", b, "ok")
+                            self.ev(t, "bodyend", b, "ok", self.pending_cancel())
                     else:
                         with ctx.updated(*insts):
                             self.ev(t, "enter", b)
@@ -350,9 +358,9 @@ class Run:
                                 await self.exec(t, body)
                             except BaseException as e:
                                 body_exc = e
-                                self.ev(t, "bodyend", b, out_name(e))
+                                self.ev(t, "bodyend", b, out_name(e), self.pending_cancel())
                                 raise
-                            self.ev(t, "bodyend", b, "ok")
+                            self.ev(t, "bodyend", b, "ok", self.pending_cancel())
                 except BaseException as e:
                     self.ev(t, "left", b, out_name(e), 1 if e is body_exc else 0, self.alive())
                     self.ev(t, "post", b, self.fingerprint())
